@@ -42,6 +42,9 @@ fn twin(rep: &mut Report, p: &Params, relation: &str, ops_a: &[Op], ops_b: &[Op]
     let mut m: f64 = 0.0;
     let mut bit_identical = true;
     for i in 0..ops_a.len() {
+        if ops_a.len() > 12 && i == ops_a.len() / 2 {
+            a.perturb(i);
+        }
         let ra = a.apply(&ops_a[i]);
         let rb = b.apply(&ops_b[i]);
         if let Op::NextF(x) = &ops_b[i] {
